@@ -48,6 +48,7 @@ class Built(object):
         self.exact = None
         self.exact_error = None
         self.names_handed_out = []   # (statement index, "CC.CODE", var, returned name)
+        self.stated = {}             # ("CC.CODE", var) -> the texts the program stated for it (templates, '{ref:var}' unresolved)
         self.has_ic = False
         self.main_ran = False
 
@@ -151,10 +152,13 @@ def execute(program, solve=True, oracle=True, horizon=None, stop_before_main=Fal
                 obj = kinds[st['kind']](c, st['code'], **kw)
                 b.sectors[st['country'] + '.' + st['code']] = obj
             elif op == 'AddVariable':
+                b.stated[(st['sector'], st['name'])] = [st.get('eqn', '')]
                 sec(st['sector']).AddVariable(st['name'], st.get('desc', ''), subst(st.get('eqn', ''), idx))
             elif op == 'AddTerm':
+                b.stated.setdefault((st['sector'], st['name']), []).append(st['term'])
                 sec(st['sector']).AddTermToEquation(st['name'], subst(st['term'], idx))
             elif op == 'SetRHS':
+                b.stated[(st['sector'], st['name'])] = [st['eqn']]
                 sec(st['sector']).SetEquationRightHandSide(st['name'], subst(st['eqn'], idx))
             elif op == 'SetAttr':
                 setattr(sec(st['sector']), st['attr'], arg(st['value']))
